@@ -227,10 +227,7 @@ def run(ctx):
         if d is None or "Pairs" not in d:
             raise AnchorMissing("no Pairs arm in the factory query dispatch")
         region = common.region_of_edge(q.body, d["Pairs"])
-        hs = [(b, P.fn(p) or P.fn(generic_path(p))) for b, p, fr_, t in P.calls(q) if b in region and roles.is_workspace_fn(P, p)]
-        if len(hs) != 1:
-            raise AnchorMissing("Pairs arm calls %d workspace functions" % len(hs))
-        qb, qp = hs[0]
+        qb, qp = roles.arm_handler(P, q, region, "Pairs arm")
         msg_i = common.param_index_of_type(q, "^%s$" % re.escape(ctx.N.query_enum("factory")))
         qv = P.val_call(q, q.body, qb)
         sa_i = common.param_index_of_type(qp, r"^std::option::Option<\[%s; 2\]>$" % ctx.N.rx("AssetInfo"))
